@@ -119,7 +119,8 @@ def run(prop, tier, seed, replay=None):
         if "steer" in rp["instance"]["line"]:
             s = core.mt("replay-sector", inp, os.path.join(wd, "sum.json"), rp.get("seed", seed), {"base_idx": rp["instance"].get("idx", 0), "points": 6})
         else:
-            s = core.mt("replay-sample", inp, os.path.join(wd, "sum.json"), rp.get("seed", seed), {"base_idx": rp["instance"].get("idx", 0)})
+            # the points of a line are drawn from (seed, line index, options): the options of the run that found the violation are reused
+            s = core.mt("replay-sample", inp, os.path.join(wd, "sum.json"), rp.get("seed", seed), dict(rp.get("opts") or {}, base_idx=rp["instance"].get("idx", 0)))
         bad = [v for v in s["violations"] if v["property"] == prop]
         known = core.load_known()
         new = [v for v in bad if not core.match_known(prop, v, known)]
@@ -129,8 +130,8 @@ def run(prop, tier, seed, replay=None):
         return 1 if new else 0
     mcs = mc_for(prop, tier, wd)
     path, runs, gstates, nlines = gen_routing(tier, wd, seed)
-    s = core.mt("replay-sample", path, os.path.join(wd, "sum.json"), seed,
-                {"points": 30 if tier == "quick" else 80, "boundary": 1 if prop == "C06" else 0})
+    sopts = {"points": 30 if tier == "quick" else 80, "boundary": 1 if prop == "C06" else 0}
+    s = core.mt("replay-sample", path, os.path.join(wd, "sum.json"), seed, sopts)
     violations = list(s["violations"])
     c = s["counters"]
     if c.get("log_missing", 0) > 0.1 * max(1, c.get("outcome_Ok", 0)):
@@ -212,4 +213,4 @@ def run(prop, tier, seed, replay=None):
     assumptions = ["tolerances scale with the condition number of L and the cancellation ratio of V computed from the specification's "
                    "polynomials; points beyond 1e8 are skipped and counted", "generic kinematics (no partial sum of external momenta vanishes) "
                    "for the tropical comparisons"]
-    return core.finish(prop, tier, seed, "model_checking", cov, assumptions, t0, violations, {"runner": "replay-sample", "seed": seed})
+    return core.finish(prop, tier, seed, "model_checking", cov, assumptions, t0, violations, {"runner": "replay-sample", "seed": seed, "opts": sopts})
